@@ -98,7 +98,7 @@ Record task := { t_nid : nat; t_state : TaskState; t_prev : option nat;
 
 Inductive ev :=
 | ENew (tid nid : nat) (prev : option nat) (at_ : Z)
-| ETrans (tid : nat) (o n : TaskState) (at_ : Z)
+| ETrans (tid : nat) (o n : TaskState) (at_ : Z) (site : nat)
 | EMsg (tid : nat) (s : TaskState) (ins outs : vars)
 | EProc (s : TaskState) (outs : vars)
 | EAct (ok : bool)
@@ -138,10 +138,24 @@ Definition add_ev e x := with_trace e (trace e ++ [x]).
 
 Definition tmod e i (f : task -> task) : eng := with_tasks e (upd (tasks e) i (f (tk e i))).
 
+(* write sites (the `site` of a transition event; file and function of the Rust call):
+    1 task.rs init: none -> ready            2 step/branch/act.rs init: `if` false -> skipped
+    3 branch.rs init: -> pending             4 act.rs init: irq -> interrupted     5 act.rs init: msg/func -> ready
+    6 task.rs exec: pending branch already ready -> running                         7 task.rs run: ready -> running
+    8 workflow.rs run: no steps -> completed 9 task.rs is_ready: else branch -> skipped
+   10 branch.rs next: no steps -> completed 11 step/act.rs next: resume pending -> running
+   12 step/act.rs next: all children done -> completed                            13 step.rs review: resume pending -> running
+   14 workflow.rs review -> completed        15 branch.rs review -> completed      16 step.rs review -> completed
+   17 act.rs review: a child skipped -> skipped                                    18 act.rs review -> completed
+   19 hook.rs catch: error -> running        20 context.rs emit_error: parent -> error   21 scheduler.rs next: exec failed -> error
+   22 next 23 submit 24 remove 25 skip (the act) 26 skip/abort (open siblings -> skipped) 27 abort (the act)
+   28 abort_task: ancestor -> aborted        29 abort_task: ancestor's children     30 abort_task: every open task
+   31 error (the act) 32 error (siblings of the parent -> skipped) 33 back (the act) 34 back (siblings) 35 back (enclosing step/act)
+   36 back/cancel: path tasks               37 undo_task: children -> cancelled    38 undo_task: step -> completed *)
 (* Task::set_state (task.rs): the virtual clock advances by one on every call (hook); terminal
    states stamp end_time, created-class states stamp start_time; the root mirrors terminal states
    into the process; the error is cleared unless the new state is error *)
-Definition set_state e i s : eng :=
+Definition set_state (site : nat) e i s : eng :=
   let t := tk e i in
   let c := (clock e + 1)%Z in
   let t' := {| t_nid := t_nid t; t_state := s; t_prev := t_prev t;
@@ -151,7 +165,7 @@ Definition set_state e i s : eng :=
                t_end := if is_completed s then c else t_end t;
                t_tmo_done := t_tmo_done t; t_timeouts := t_timeouts t; t_evproc := t_evproc t;
                t_silent := t_silent t; t_hooks := t_hooks t; t_data := t_data t; t_exposed := t_exposed t |} in
-  let e1 := add_ev (with_clock (with_tasks e (upd (tasks e) i t')) c) (ETrans i (t_state t) s c) in
+  let e1 := add_ev (with_clock (with_tasks e (upd (tasks e) i t')) c) (ETrans i (t_state t) s c site) in
   if is_completed s && Nat.eqb i 0 then with_pstate e1 s else e1.
 
 Definition tset_err (t : task) err := {| t_nid := t_nid t; t_state := t_state t; t_prev := t_prev t; t_err := err;
@@ -185,7 +199,7 @@ Definition tset_exposed (t : task) ks := {| t_nid := t_nid t; t_state := t_state
   t_catch_done := t_catch_done t; t_catches := t_catches t; t_start := t_start t; t_end := t_end t; t_tmo_done := t_tmo_done t;
   t_timeouts := t_timeouts t; t_evproc := t_evproc t; t_silent := t_silent t; t_hooks := t_hooks t; t_data := t_data t; t_exposed := ks |}.
 
-Definition set_err e i (code : nat) : eng := set_state (tmod e i (fun t => tset_err t (Some code))) i SError.
+Definition set_err (site : nat) e i (code : nat) : eng := set_state site (tmod e i (fun t => tset_err t (Some code))) i SError.
 Definition set_catch_done e i : eng := tmod e i (fun t => tset_catch_done t true).
 Definition set_catches e i cs : eng := tmod e i (fun t => tset_catches t cs).
 Definition set_timeouts e i tms : eng := tmod e i (fun t => tset_timeouts t tms).
@@ -312,7 +326,7 @@ Definition is_ready e i : bool * eng :=
       else if n_else n then
         if forallb (fun j => is (st e j) SSkipped) sib then (true, e)
         else if existsb (fun j => match st e j with SError | SCompleted | SAborted => true | _ => false end) sib
-             then (false, set_state e i SSkipped)
+             then (false, set_state 9 e i SSkipped)
              else (false, e)
       else (false, e)
   | _ => (true, e)
@@ -324,7 +338,7 @@ Definition eval_if e i (c : cond) (k : eng -> eng) : eng :=
   | None => k e
   | Some b => match eval_cond e i b with
               | None => with_exn e true
-              | Some false => set_state e i SSkipped
+              | Some false => set_state 2 e i SSkipped
               | Some true => k e
               end
   end.
@@ -337,26 +351,26 @@ Definition kind_init e i : eng :=
         dispatch_setup (set_timeouts (set_catches e i (n_catches n)) i (n_timeouts n)) i (n_setup n))
   | KBranch =>
       let e := set_silent e i true in
-      if negb (Nat.eqb (length (n_needs n)) 0) then set_state e i SPending
+      if negb (Nat.eqb (length (n_needs n)) 0) then set_state 3 e i SPending
       else match n_if n with
            | Some b => match eval_cond e i b with
                        | None => with_exn e true
-                       | Some false => set_state e i SSkipped
+                       | Some false => set_state 2 e i SSkipped
                        | Some true => e
                        end
            | None =>
-               if negb (n_else n) then set_state e i SSkipped
+               if negb (n_else n) then set_state 2 e i SSkipped
                else
                  let cnt := match parent e i with
                             | Some p => length (normal_children (tnode e p)) | None => 1 end in
-                 if Nat.ltb 1 cnt then set_state e i SPending else e
+                 if Nat.ltb 1 cnt then set_state 3 e i SPending else e
            end
   | KAct =>
       eval_if e i (n_if n) (fun e =>
         let e1 := dispatch_setup (set_timeouts (set_catches e i (n_catches n)) i (n_timeouts n)) i (n_setup n) in
         match sp_u (n_spec n) with
-        | UIrq => set_state e1 i SInterrupt
-        | _ => set_state (set_silent e1 i true) i SReady
+        | UIrq => set_state 4 e1 i SInterrupt
+        | _ => set_state 5 (set_silent e1 i true) i SReady
         end)
   end.
 
@@ -371,7 +385,7 @@ Fixpoint act_scan e (l : list nat) (n : nat) : ascan :=
   | [] => AS_count n
   | j :: l' => if is (st e j) SError then AS_err
                else if is (st e j) SSkipped then AS_skip
-               else act_scan e l' (if is (st e j) SCompleted then S n else n)
+               else act_scan e l' (if is_completed (st e j) then S n else n)
   end.
 
 Fixpoint climb_to (f : nat) e (p : option nat) (pred : nat -> bool) : option nat :=
@@ -391,7 +405,7 @@ Definition run_stmt_hooks e (t : nat) (ev : levt) (i : nat) : eng :=
 Definition upsert e i : eng := with_prow (with_rows e (upd (rows e) i (Some (tk e i)))) (Some (pstate e)).
 
 (* ---------- emit_task (context.rs) + on_task (runtime.rs) + hooks (task.rs run_hooks),
-              emit_error, exec, next, review : mutually recursive through catches and resumes ---------- *)
+              emit_error, next, review : mutually recursive through catches and resumes ---------- *)
 Fixpoint emit (f : nat) (e : eng) (i : nat) {struct f} : eng :=
   match f with
   | O => out_of_fuel e
@@ -428,7 +442,7 @@ Fixpoint emit (f : nat) (e : eng) (i : nat) {struct f} : eng :=
           | Some code =>
               if t_catch_done (tk ee i) then ee
               else if match c with None => true | Some x => Nat.eqb x code end then
-                let ee1 := set_state (set_catch_done ee i) i SRunning in
+                let ee1 := set_state 19 (set_catch_done ee i) i SRunning in
                 match children_in (tnode ee1 i) (OCatch c) with
                 | [] => review f [] i ee1 i
                 | ch => sched_nodes ee1 ch i
@@ -450,61 +464,11 @@ with emit_error (f : nat) (e : eng) (i : nat) {struct f} : eng :=
       let e1 := emit f e i in
       if is (st e1 i) SError then
         match t_err (tk e1 i), parent e1 i with
-        | Some code, Some p => if is_completed (st e1 p) then e1 else emit_error f (set_err e1 p code) p
+        | Some code, Some p => if is_completed (st e1 p) then e1 else emit_error f (set_err 20 e1 p code) p
         | _, _ => e1
         end
       else e1
     else e
-  end
-with exec (f : nat) (cv : vars) (e : eng) (i : nat) {struct f} : eng :=
-  match f with
-  | O => out_of_fuel e
-  | S f =>
-    if is_completed (st e i) then with_exn e true
-    else
-      (* init *)
-      let e1 :=
-        if is (st e i) SNone then
-          let ea := kind_init (set_state (set_data e i (inputs e i)) i SReady) i in
-          if exn ea then ea
-          else if negb (is_completed (st ea i)) then emit f ea i else ea
-        else e in
-      if exn e1 then e1 else
-      (* a pending branch whose siblings are already decided is resumed at once *)
-      let e1' := if is (st e1 i) SPending then
-                   let '(rdy, ea) := is_ready e1 i in
-                   if rdy then emit f (set_state ea i SRunning) i else ea
-                 else e1 in
-      (* run *)
-      let e2 :=
-        if is (st e1' i) SReady then
-          let er := set_state e1' i SRunning in
-          let er2 := match kind er i with
-                     | KWorkflow => match normal_children (tnode er i) with
-                                    | [] => set_state er i SCompleted
-                                    | ch => sched_nodes er ch i
-                                    end
-                     | KStep => sched_nodes er (normal_children (tnode er i)) i
-                     | KAct =>
-                         let sp := n_spec (tnode er i) in
-                         let nid := t_nid (tk er i) in
-                         let blk := ASpec UBlock 0 true None (sp_acts sp) in
-                         let er0 := match sp_u sp with UMsg => set_silent er i false | _ => er end in
-                         let er0 := if n_isset (tnode er0 i) then
-                                      let ps := n_params (tnode er0 i) in
-                                      update_data (set_exposed er0 i (map fst (filter (fun kv => negb (is_private_key (fst kv))) ps))) i ps
-                                    else er0 in
-                         let er1 := match sp_u sp with
-                                    | UBlock => if n_isset (tnode er0 i) then er0 else build_acts er0 nid (sp_acts sp) (sp_sq sp)
-                                    | UParallel => build_acts er0 nid (repeat blk (sp_n sp)) false
-                                    | USequence => build_acts er0 nid (repeat blk (sp_n sp)) true
-                                    | _ => er0 end in
-                         sched_nodes er1 (normal_children (tnode er1 i)) i
-                     | KBranch => er
-                     end in
-          emit f er2 i
-        else e1' in
-      next f cv e2 i
   end
 with next (f : nat) (cv : vars) (e : eng) (i : nat) {struct f} : eng :=
   match f with
@@ -517,7 +481,7 @@ with next (f : nat) (cv : vars) (e : eng) (i : nat) {struct f} : eng :=
         | KBranch =>
             if is (st e i) SRunning then
               match normal_children (tnode e i) with
-              | [] => (false, set_state e i SCompleted)
+              | [] => (false, set_state 10 e i SCompleted)
               | ch => (true, sched_nodes e ch i)
               end
             else (false, e)
@@ -532,10 +496,10 @@ with next (f : nat) (cv : vars) (e : eng) (i : nat) {struct f} : eng :=
                   if is sj SNone || is sj SRunning then (true, ee)
                   else if is sj SPending then
                     let '(rdy, ee1) := is_ready ee j in
-                    if rdy then (true, exec f cv (emit f (set_state ee1 j SRunning) j) j) else (fl, ee1)
+                    if rdy then (true, next f cv (emit f (set_state 11 ee1 j SRunning) j) j) else (fl, ee1)
                   else (fl, ee)) (children e i) (false, e) in
               if forallb (fun j => is_completed (st e' j)) (children e' i) then
-                let e'' := if negb (is_completed (st e' i)) then set_state e' i SCompleted else e' in
+                let e'' := if negb (is_completed (st e' i)) then set_state 12 e' i SCompleted else e' in
                 match n_next (tnode e'' i) with
                 | Some nx => (true, sched e'' nx i)
                 | None => (flag, e'')
@@ -569,9 +533,9 @@ with review (f : nat) (cv : vars) (from : nat) (e : eng) (i : nat) {struct f} : 
     let '(isr, e1) :=
       match kind e i with
       | KWorkflow =>
-          if is before SRunning then (true, set_state e i SCompleted) else (false, e)
+          if is before SRunning then (true, set_state 14 e i SCompleted) else (false, e)
       | KBranch =>
-          if is before SRunning then (true, set_state e i SCompleted)
+          if is before SRunning then (true, set_state 15 e i SCompleted)
           else if is before SSkipped then (true, e) else (false, e)
       | KStep =>
           if is before SRunning then
@@ -581,7 +545,7 @@ with review (f : nat) (cv : vars) (from : nat) (e : eng) (i : nat) {struct f} : 
               | j :: l' =>
                   if is (st ee j) SPending then
                     let '(rdy, ee1) := is_ready ee j in
-                    if rdy then (Some (exec f cv (emit f (set_state ee1 j SRunning) j) j), ee1)
+                    if rdy then (Some (next f cv (emit f (set_state 13 ee1 j SRunning) j) j), ee1)
                     else scan l' ee1
                   else scan l' ee
               end in
@@ -589,7 +553,7 @@ with review (f : nat) (cv : vars) (from : nat) (e : eng) (i : nat) {struct f} : 
             | (Some e', _) => (false, e')
             | (None, e') =>
                 if forallb (fun j => is_completed (st e' j)) (children e' i) then
-                  let e'' := if negb (is_completed (st e' i)) then set_state e' i SCompleted else e' in
+                  let e'' := if negb (is_completed (st e' i)) then set_state 16 e' i SCompleted else e' in
                   match n_next (tnode e'' i) with
                   | Some nx => (false, sched e'' nx i)
                   | None => (true, e'')
@@ -607,10 +571,10 @@ with review (f : nat) (cv : vars) (from : nat) (e : eng) (i : nat) {struct f} : 
             let ch := children e i in
             match act_scan e ch 0 with
             | AS_err => (false, e)
-            | AS_skip => (true, set_state e i SSkipped)
+            | AS_skip => (true, set_state 17 e i SSkipped)
             | AS_count n =>
                 if Nat.eqb n (length ch) then
-                  let e'' := if negb (is_completed (st e i)) then set_state e i SCompleted else e in
+                  let e'' := if negb (is_completed (st e i)) then set_state 18 e i SCompleted else e in
                   match n_next (tnode e'' i) with
                   | Some nx => (false, sched e'' nx i)
                   | None => (true, e'')
@@ -628,6 +592,56 @@ with review (f : nat) (cv : vars) (from : nat) (e : eng) (i : nat) {struct f} : 
     else e2
   end.
 
+(* Task::exec = init; run; next (task.rs).  It is only entered from the scheduler loop: the resume
+   paths in step.rs / act.rs call exec on a task they have just set running, for which exec is
+   the completed check followed by next -- the model calls next there. *)
+Definition exec (f : nat) (cv : vars) (e : eng) (i : nat) : eng :=
+    if is_completed (st e i) then with_exn e true
+    else
+      (* init *)
+      let e1 :=
+        if is (st e i) SNone then
+          let ea := kind_init (set_state 1 (set_data e i (inputs e i)) i SReady) i in
+          if exn ea then ea
+          else if negb (is_completed (st ea i)) then emit f ea i else ea
+        else e in
+      if exn e1 then e1 else
+      (* a pending branch whose siblings are already decided is resumed at once *)
+      let e1' := if is (st e1 i) SPending then
+                   let '(rdy, ea) := is_ready e1 i in
+                   if rdy then emit f (set_state 6 ea i SRunning) i else ea
+                 else e1 in
+      (* run *)
+      let e2 :=
+        if is (st e1' i) SReady then
+          let er := set_state 7 e1' i SRunning in
+          let er2 := match kind er i with
+                     | KWorkflow => match normal_children (tnode er i) with
+                                    | [] => set_state 8 er i SCompleted
+                                    | ch => sched_nodes er ch i
+                                    end
+                     | KStep => sched_nodes er (normal_children (tnode er i)) i
+                     | KAct =>
+                         let sp := n_spec (tnode er i) in
+                         let nid := t_nid (tk er i) in
+                         let blk := ASpec UBlock 0 true None (sp_acts sp) in
+                         let er0 := match sp_u sp with UMsg => set_silent er i false | _ => er end in
+                         let er0 := if n_isset (tnode er0 i) then
+                                      let ps := n_params (tnode er0 i) in
+                                      update_data (set_exposed er0 i (map fst (filter (fun kv => negb (is_private_key (fst kv))) ps))) i ps
+                                    else er0 in
+                         let er1 := match sp_u sp with
+                                    | UBlock => if n_isset (tnode er0 i) then er0 else build_acts er0 nid (sp_acts sp) (sp_sq sp)
+                                    | UParallel => build_acts er0 nid (repeat blk (sp_n sp)) false
+                                    | USequence => build_acts er0 nid (repeat blk (sp_n sp)) true
+                                    | _ => er0 end in
+                         sched_nodes er1 (normal_children (tnode er1 i)) i
+                     | KBranch => er
+                     end in
+          emit f er2 i
+        else e1' in
+      next f cv e2 i.
+
 Definition fuel_of e := 16 + 8 * length (tasks e).
 
 (* Scheduler::next : pop; a task closed while it waited is dropped; exec; on Err mark the task
@@ -641,7 +655,7 @@ Definition step_queue (e : eng) : eng :=
       let e1 := exec (fuel_of e0) [] e0 i in
       if exn e1 then
         let e2 := with_exn e1 false in
-        emit_error (fuel_of e2) (set_err e2 i 0) i
+        emit_error (fuel_of e2) (set_err 21 e2 i 0) i
       else e1
   end.
 (* the schedule: run the k-th queued signal next *)
@@ -679,8 +693,8 @@ Definition do_tick (e : eng) (adv : Z) : eng :=
 Inductive action := ANext | ASubmit | ARemove | ASkip | AAbort | AError (code : option nat)
                   | ABack (to : option nat) | ACancel | APush (uses_ok : bool).
 
-Definition close_open e (l : list nat) (s : TaskState) : eng :=
-  fold_left (fun ee j => if is_completed (st ee j) then ee else emit (fuel_of ee) (set_state ee j s) j) l e.
+Definition close_open (site : nat) e (l : list nat) (s : TaskState) : eng :=
+  fold_left (fun ee j => if is_completed (st ee j) then ee else emit (fuel_of ee) (set_state site ee j s) j) l e.
 
 (* Context::abort_task, ancestor part *)
 Fixpoint abort_up (f : nat) (e : eng) (p : option nat) : eng :=
@@ -688,18 +702,18 @@ Fixpoint abort_up (f : nat) (e : eng) (p : option nat) : eng :=
   | O, _ => e
   | _, None => e
   | S f, Some t =>
-      let e1 := if is_completed (st e t) then e else emit (fuel_of e) (set_state e t SAborted) t in
+      let e1 := if is_completed (st e t) then e else emit (fuel_of e) (set_state 28 e t SAborted) t in
       let e2 := fold_left (fun ee c =>
-                  if is (st ee c) SPending then emit (fuel_of ee) (set_state ee c SSkipped) c
-                  else if is (st ee c) SRunning then emit (fuel_of ee) (set_state ee c SAborted) c
+                  if is (st ee c) SPending then emit (fuel_of ee) (set_state 29 ee c SSkipped) c
+                  else if is (st ee c) SRunning then emit (fuel_of ee) (set_state 29 ee c SAborted) c
                   else ee) (children e1 t) e1 in
       abort_up f e2 (parent e2 t)
   end.
-(* ... and the sweep over every task that is still open, in creation order *)
-Definition abort_sweep (e : eng) : eng :=
+(* ... preceded by the sweep over every other task that is still open, in creation order *)
+Definition abort_sweep (e : eng) (skip : list nat) : eng :=
   fold_left (fun ee t =>
-    if is_completed (st ee t) then ee
-    else emit (fuel_of ee) (set_state ee t (if is (st ee t) SRunning then SAborted else SSkipped)) t)
+    if is_completed (st ee t) || existsb (Nat.eqb t) skip then ee
+    else emit (fuel_of ee) (set_state 30 ee t (if is (st ee t) SRunning then SAborted else SSkipped)) t)
     (seq 0 (length (tasks e))) e.
 
 (* Task::backs *)
@@ -737,8 +751,8 @@ Definition redo e (t : nat) : eng :=
 
 Definition mark_path e (path : list nat) : eng :=
   fold_left (fun ee p =>
-    if is (st ee p) SRunning then emit (fuel_of ee) (set_state ee p SCompleted) p
-    else if is (st ee p) SPending then emit (fuel_of ee) (set_state ee p SSkipped) p
+    if is (st ee p) SRunning then emit (fuel_of ee) (set_state 36 ee p SCompleted) p
+    else if is (st ee p) SPending then emit (fuel_of ee) (set_state 36 ee p SSkipped) p
     else ee) path e.
 
 (* Context::undo_task, children part *)
@@ -753,7 +767,7 @@ Fixpoint undo_children (f : nat) e (l : list nat) : eng :=
                             let '(ee, nx) := acc in
                             if is_completed (st ee t) then acc
                             else
-                              let ee1 := emit (fuel_of ee) (set_state ee t SCancelled) t in
+                              let ee1 := emit (fuel_of ee) (set_state 37 ee t SCancelled) t in
                               (ee1, nx ++ children ee1 t)) l (e, []) in
       undo_children f e' nexts
     end
@@ -762,14 +776,17 @@ Fixpoint undo_children (f : nat) e (l : list nat) : eng :=
 Definition ret_err e := add_ev e (EAct false).
 Definition ret_ok e := add_ev e (EAct true).
 
-Definition do_action (e : eng) (i : nat) (a : action) (opts : vars) : eng :=
-  if is_completed (pstate e) then ret_err e                            (* the process has ended *)
-  else if Nat.leb (length (tasks e)) i then ret_err e                  (* cannot find task *)
+(* Process::do_action up to Task::update's own guards: every check that can reject the action
+   without having touched anything (the checks are pure, so their order is not observable) *)
+Definition is_cancel (a : action) : bool := match a with ACancel => true | _ => false end.
+Definition admission (e : eng) (i : nat) (a : action) (opts : vars) : option (vars * action) :=
+  if is_completed (pstate e) then None                                  (* the process has ended *)
+  else if Nat.leb (length (tasks e)) i then None                        (* cannot find task *)
   else
   let ispush := match a with APush _ => true | _ => false end in
-  if ispush && negb (nkind_beq (kind e i) KStep) then ret_err e
-  else if negb ispush && negb (nkind_beq (kind e i) KAct) then ret_err e
-  else if n_outs (tnode e i) && negb (forallb (fun kv => vhas opts (fst kv)) (n_outputs (tnode e i))) then ret_err e
+  if ispush && negb (nkind_beq (kind e i) KStep) then None
+  else if negb ispush && negb (nkind_beq (kind e i) KAct) then None
+  else if n_outs (tnode e i) && negb (forallb (fun kv => vhas opts (fst kv)) (n_outputs (tnode e i))) then None
   else
   (* the options are cut down to the declared outputs, which also drops `ecode`, `to`, `uses` *)
   let cv := if n_outs (tnode e i)
@@ -778,53 +795,56 @@ Definition do_action (e : eng) (i : nat) (a : action) (opts : vars) : eng :=
   let a := if n_outs (tnode e i) then
              match a with AError _ => AError None | ABack _ => ABack None | APush _ => APush false | x => x end
            else a in
+  (* "already completed": every action but cancel *)
+  if negb (is_cancel a) && is_completed (st e i) then None else Some (cv, a).
+
+Definition perform (e : eng) (i : nat) (a : action) (cv : vars) : eng :=
   let F := fuel_of e in
-  let guard (k : eng -> eng) := if is_completed (st e i) then ret_err e else k e in
   match a with
   | APush ok =>
-      guard (fun e =>
+      (
       if negb ok then ret_err e
       else
         (* dispatch_act: a fresh irq act node one level below, scheduled when the step was initialised *)
         let nid := length (nodes e) in
         let e1 := with_nodes e (nodes e ++ [mk_dyn (S (n_level (tnode e i))) dspec]) in
         if is (st e1 i) SNone then ret_ok e1 else ret_ok (sched e1 nid i))
-  | ARemove => guard (fun e => ret_ok (next F cv (set_state e i SRemoved) i))
-  | ASubmit => guard (fun e => ret_ok (next F cv (set_state e i SSubmitted) i))
-  | ANext => guard (fun e => ret_ok (next F cv (set_state e i SCompleted) i))
-  | ASkip => guard (fun e =>
-      let e1 := close_open e (siblings e i) SSkipped in
-      ret_ok (next (fuel_of e1) cv (set_state e1 i SSkipped) i))
-  | AAbort => guard (fun e =>
-      let e1 := close_open e (siblings e i) SSkipped in
-      let e2 := emit (fuel_of e1) (set_data (set_state e1 i SAborted) i cv) i in
-      let e3 := abort_up (S (length (tasks e2))) e2 (parent e2 i) in
-      ret_ok (abort_sweep e3))
+  | ARemove => ret_ok (next F cv (set_state 24 e i SRemoved) i)
+  | ASubmit => ret_ok (next F cv (set_state 23 e i SSubmitted) i)
+  | ANext => ret_ok (next F cv (set_state 22 e i SCompleted) i)
+  | ASkip => (
+      let e1 := close_open 26 e (siblings e i) SSkipped in
+      ret_ok (next (fuel_of e1) cv (set_state 25 e1 i SSkipped) i))
+  | AAbort => (
+      let e1 := close_open 26 e (siblings e i) SSkipped in
+      let e2 := emit (fuel_of e1) (set_data (set_state 27 e1 i SAborted) i cv) i in
+      let e3 := abort_sweep e2 (ancestors (S (length (tasks e2))) e2 (parent e2 i)) in
+      ret_ok (abort_up (S (length (tasks e3))) e3 (parent e3 i)))
   | AError code =>
       match code with
       | None => ret_err e
       | Some c =>
-          guard (fun e =>
+          (
             match parent e i with
             | None => ret_err e
             | Some p =>
-                let e1 := close_open e (siblings e p) SSkipped in
-                ret_ok (emit_error (fuel_of e1) (set_data (set_err e1 i c) i cv) i)
+                let e1 := close_open 32 e (siblings e p) SSkipped in
+                ret_ok (emit_error (fuel_of e1) (set_data (set_err 31 e1 i c) i cv) i)
             end)
       end
   | ABack to =>
-      guard (fun e =>
+      (
         match to with
         | None => ret_err e
         | Some nid =>
             match backs (S (length (tasks e))) e nid (t_prev (tk e i)) [] with
             | (None, _) => ret_err e
             | (Some t, path) =>
-                let e1 := close_open e (siblings e i) SSkipped in
-                let e2 := emit (fuel_of e1) (set_state e1 i SBacked) i in
+                let e1 := close_open 34 e (siblings e i) SSkipped in
+                let e2 := emit (fuel_of e1) (set_state 33 e1 i SBacked) i in
                 let e3 := match climb_to (S (length (tasks e2))) e2 (parent e2 i)
                                   (fun q => nkind_beq (kind e2 q) KStep || nkind_beq (kind e2 q) KAct) with
-                          | Some p => if is_completed (st e2 p) then e2 else emit (fuel_of e2) (set_state e2 p SBacked) p
+                          | Some p => if is_completed (st e2 p) then e2 else emit (fuel_of e2) (set_state 35 e2 p SBacked) p
                           | None => e2 end in
                 let e4 := mark_path e3 path in
                 ret_ok (redo e4 t)
@@ -848,11 +868,17 @@ Definition do_action (e : eng) (i : nat) (a : action) (opts : vars) : eng :=
                                         else if is_completed (st ee nx) then (ee, true)
                                         else
                                           let ee1 := undo_children (S (length (tasks ee))) ee (children ee nx) in
-                                          (emit (fuel_of ee1) (set_state ee1 nx SCompleted) nx, false))
+                                          (emit (fuel_of ee1) (set_state 38 ee1 nx SCompleted) nx, false))
                                       nexts (e1, false) in
                 if failed then ret_err e2 else ret_ok (redo e2 s)
             end
       end
+  end.
+
+Definition do_action (e : eng) (i : nat) (a : action) (opts : vars) : eng :=
+  match admission e i a opts with
+  | None => ret_err e
+  | Some (cv, a') => perform e i a' cv
   end.
 
 (* Process::start : the process runs, its row is written, the root task is queued *)
